@@ -30,7 +30,8 @@ RULE = (
     "lower-is-better, or the label encoding is not 0/1. Distinct = distinct canonical JSON."
 )
 ASSUMPTIONS = [
-    "train_fdr = test_fdr; cases in which an exact q-value lies within float32 rounding of the threshold are discarded",
+    "the best feature is counted at the training FDR on the training sets, the returned scores at the evaluation FDR on all "
+    "data (as the statement says); cases in which an exact q-value lies within float32 rounding of a threshold are discarded",
     "training sets are observed with a recording scaler passed through the public Model API (row id = last feature)",
     "result-file numeric columns compared with rtol 1e-9 in the direction metamorphic relation",
 ]
@@ -67,6 +68,7 @@ def _case(draw, tier):
         "n_noise": draw(st.integers(1, 3)),
         "fdr": draw(st.sampled_from((0.1279, 0.2113, 0.2113, 0.31))),
         "sep": draw(st.sampled_from([3.0, 4.0])),
+        "train_fdr": draw(st.sampled_from([None, None, 0.31, 0.2113, 0.1279])),  # None: same as the evaluation FDR
         "twin": draw(st.booleans()),
         "raw_labels": draw(st.booleans()),
         "cap_kind": "none", "cap_frac": 50, "shared_prefix": False, "row_group": None,
@@ -90,7 +92,7 @@ def _make_model(case):
     from sklearn.svm import LinearSVC
 
     k = case["kind"]
-    thr = case["fdr"]
+    thr = case.get("train_fdr") or case["fdr"]
     if k == "svc":
         return mokapot.Model(LinearSVC(dual=False, random_state=0), scaler=recorder.RecScaler(identity=False),
                              train_fdr=thr, max_iter=3, override=case["override"])
@@ -120,7 +122,8 @@ def check(case):
         _, models, scores, descs = res
         feats = metas[0]["features"]
         tg_all = [m["is_target"] for m in metas]
-        # ---- F: best single feature on any fold's training set -----------------
+        # ---- F: best single feature on any fold's training set (counted at the training FDR) -----------------
+        train_thr = case.get("train_fdr") or thr
         F, F_args, ambiguous = 0, None, False
         per_fold_best = []
         for j, m in enumerate(models):
@@ -133,7 +136,7 @@ def check(case):
             for f in feats:
                 col = np.array([dfs[a][f].values[b] for a, b in zip(fi, pos)], dtype=float)
                 for d in (True, False):
-                    n_acc, amb = _accepted(col, tg, thr, d)
+                    n_acc, amb = _accepted(col, tg, train_thr, d)
                     ambiguous |= amb
                     best_j[(f, d)] = n_acc
                     if n_acc > F:
@@ -177,6 +180,8 @@ def check(case):
                 classes.append("fallback-lower-is-better")
         if trained and case["override"]:
             classes.append("override")
+        if case.get("train_fdr") and case["train_fdr"] != thr:
+            classes.append("train_fdr!=test_fdr")
         if case["twin"]:
             classes.append("twin-features")
         if case["raw_labels"]:
